@@ -19,7 +19,7 @@ func init() {
 	register(&CheckDef{
 		ID:    "C13",
 		Level: "exploration",
-		Rule:  "seeded histories on a real primary P, a real replica R that takes P's halt lock through the <db>-lock file (real fuse lock node, real HTTP client and /halt, /tx handlers over the simulated network) and a second real replica R2, in rollback and WAL mode. Steps are drawn from: acquire, forwarded transactions on R (every PagerSim shape), local transactions and checkpoints attempted on P, release, expiry of the TTL without release (with R partitioned away or silent), a repeated POST /halt with the same id, POST /tx without a lock / with a wrong id / after release or expiry, lost acquire and release replies, and a change of primary while the lock is held. Oracles: at grant R's position equals the lock's position equals P's position; while the lock is held every local transaction on P is refused and P's position, raw image, WAL size and ltx listing change only through forwarded files; when a forwarded commit returns success on R, P already reports the same TXID and checksum and holds the same image, and R2 reaches it; a failed forwarded commit changes neither node; a repeated acquire returns the same lock; /tx from anybody but the current holder is refused and changes nothing; after release or expiry P commits again and the former holder's writes are refused. evaluations = steps; distinct = distinct (mode, step kind, lock state, outcome) tuples; non-trivial = run with >= 1 forwarded commit checked on P",
+		Rule:  "seeded histories on a real primary P, a real replica R that takes P's halt lock through the <db>-lock file (real fuse lock node, real HTTP client and /halt, /tx handlers over the simulated network) and a second real replica R2, in rollback and WAL mode. Steps are drawn from: acquire, forwarded transactions on R (every PagerSim shape), local transactions and checkpoints attempted on P, release, expiry of the TTL without release (with R partitioned away or silent), a repeated POST /halt with the same id (after the grant, and as a call plus its retry that both wait behind a local writer on P), POST /tx without a lock / with a wrong id / after release or expiry, lost acquire and release replies, and a change of primary while the lock is held. Oracles: at grant R's position equals the lock's position equals P's position; while the lock is held every local transaction on P is refused and P's position, raw image, WAL size and ltx listing change only through forwarded files; when a forwarded commit returns success on R, P already reports the same TXID and checksum and holds the same image, and R2 reaches it; a failed forwarded commit changes neither node; a repeated acquire returns the same lock, also when both requests were queued behind a writer, and a released lock does not come back; /tx from anybody but the current holder is refused and changes nothing; after release or expiry P commits again and the former holder's writes are refused. evaluations = steps; distinct = distinct (mode, step kind, lock state, outcome) tuples; non-trivial = run with >= 1 forwarded commit checked on P",
 		Run:   runC13,
 		NonTrivial: func(r *Run) bool {
 			return r.Stats["c13.forwarded.checked"] > 0
@@ -244,11 +244,14 @@ func runC13(r *Run) {
 		if cs.pHeld && time.Since(cs.grantedAt) > cs.ttl+300*time.Millisecond {
 			cs.pHeld = false
 		}
-		kinds := []int{3, 6, 4, 3, 2, 3, 2, 2, 0} // acquire, forwarded tx, local tx on P, release, let it expire, /tx by a stranger, repeated /halt, checkpoint on P, change of primary
+		kinds := []int{3, 6, 4, 3, 2, 3, 2, 2, 0, 0} // acquire, forwarded tx, local tx on P, release, let it expire, /tx by a stranger, repeated /halt, checkpoint on P, change of primary, acquire and its retry behind a local writer
 		if cs.held {
 			kinds[0] = 0
 		} else {
 			kinds[1], kinds[3], kinds[4], kinds[6] = 1, 0, 0, 0
+			if !cs.pHeld {
+				kinds[9] = 2
+			}
 		}
 		if cs.dynamic {
 			kinds[8] = 3
@@ -277,6 +280,8 @@ func runC13(r *Run) {
 			cs.checkpointOnP(t)
 		case 8:
 			cs.changePrimary(t)
+		case 9:
+			cs.contendedAcquire(t)
 		}
 		r.State("%v/%s/%d", cs.wal, state, k)
 		if !r.Check(!cs.p.Exited && !cs.rep.Exited && !cs.r2.Exited, "c13.exit", "a node stopped (p=%v r=%v r2=%v)", cs.p.Exited, cs.rep.Exited, cs.r2.Exited) {
@@ -697,6 +702,109 @@ func (cs *c13sim) stranger(t *Tape) {
 		cs.pHeld = cs.pHeld && false
 	}
 	r.Count("c13.stranger.checked")
+}
+
+// contendedAcquire: a /halt request and its retry (same id: an interrupted call
+// that the client repeats) both arrive while a local writer on the primary holds
+// the write lock; then the writer finishes. Both must be answered with the same
+// lock, and after its release no lock with that id may come back.
+func (cs *c13sim) contendedAcquire(t *Tape) {
+	r := cs.r
+	if cs.held || cs.pHeld || cs.pdb() == nil || cs.pdb().VerifHaltLock() != nil {
+		return
+	}
+	pc := cs.p.NewConn(cs.name, cs.jmode, cs.pageSize)
+	if pc.Open() != 0 {
+		return
+	}
+	defer pc.Close()
+	ok := pc.LockShared() == 0
+	if ok && cs.wal {
+		ok = pc.WalOpen() == 0
+		if ok {
+			_, e := pc.WalBeginRead()
+			ok = e == 0
+		}
+		if ok {
+			_, e := pc.WalBeginWrite()
+			ok = e == 0
+		}
+	} else if ok {
+		ok = pc.LockReserved() == 0
+	}
+	endWriter := func() {
+		if cs.wal {
+			pc.WalEndWrite()
+			pc.WalEndRead()
+		}
+		pc.UnlockAll()
+	}
+	if !ok {
+		endWriter()
+		return
+	}
+	before := cs.pdb().Pos()
+	lockID := int64(t.Range(1000, 1<<30))
+	hdr := map[string]string{"Litefs-Id": litefs.FormatNodeID(cs.rep.Store.ID())}
+	target := fmt.Sprintf("/halt?name=%s&id=%d", cs.name, lockID)
+	ch := make(chan HTTPResult, 2)
+	post := func() {
+		ctx, cancel := context.WithTimeout(context.Background(), 10*time.Second)
+		defer cancel()
+		ch <- cs.p.HTTP(ctx, "POST", target, hdr, nil, false)
+	}
+	go post()
+	time.Sleep(time.Duration(t.Range(5, 150)) * time.Millisecond)
+	go post()
+	time.Sleep(time.Duration(t.Range(5, 250)) * time.Millisecond)
+	endWriter()
+	var locks []litefs.HaltLock
+	for i := 0; i < 2; i++ {
+		var res HTTPResult
+		select {
+		case res = <-ch:
+		case <-time.After(20 * time.Second):
+			r.Failf("c13.repeat-acquire", "a /halt request that waited behind a local writer has not been answered 20 s after the writer finished")
+			return
+		}
+		if !r.Check(res.Code == 200 && !res.Panicked, "c13.repeat-acquire", "of two /halt requests with id %d that waited behind a local writer (which finished well inside the acquire time-out) one answered %d %s", lockID, res.Code, strings.TrimSpace(string(res.Body))) {
+			return
+		}
+		var got litefs.HaltLock
+		if err := json.Unmarshal(res.Body, &got); err != nil {
+			r.Failf("c13.repeat-acquire", "decode: %v", err)
+			return
+		}
+		locks = append(locks, got)
+	}
+	now := cs.pdb().VerifHaltLock()
+	if !r.Check(now != nil && now.ID == lockID, "c13.repeat-acquire", "both /halt requests with id %d were answered 200, the primary's granted lock is %v", lockID, now) {
+		return
+	}
+	r.Check(locks[0].ID == lockID && locks[1].ID == lockID && locks[0].Pos == locks[1].Pos && locks[0].Pos == now.Pos && now.Pos == before, "c13.repeat-acquire", "the call and its retry got locks %d @%s and %d @%s; granted is %d @%s, the primary was at %s", locks[0].ID, locks[0].Pos, locks[1].ID, locks[1].Pos, now.ID, now.Pos, before)
+	// while it is held a local transaction is refused ...
+	if res, desc := cs.txOn(cs.p, t, cs.ref); res.Outcome == OutCommit {
+		r.Failf("c13.exclusive", "a local transaction on the primary committed while halt lock %d was held (%s)", lockID, desc)
+		return
+	}
+	// ... the holder gives it back ...
+	ctx, cancel := context.WithTimeout(context.Background(), 10*time.Second)
+	res := cs.p.HTTP(ctx, "DELETE", target, hdr, nil, false)
+	cancel()
+	if !r.Check(res.Code == 200 && !res.Panicked, "c13.release", "DELETE /halt for the granted lock %d answered %d %s", lockID, res.Code, strings.TrimSpace(string(res.Body))) {
+		return
+	}
+	// ... and it stays released: nothing that was still queued may grant it again
+	time.Sleep(1500 * time.Millisecond)
+	again := cs.pdb().VerifHaltLock()
+	if !r.Check(again == nil, "c13.release", "halt lock %d was released by its holder; 1.5 s later the primary holds halt lock %v again", lockID, again) {
+		return
+	}
+	tr, desc := cs.tx(cs.p, t)
+	if r.Check(tr.Outcome == OutCommit, "c13.primary-stuck", "after halt lock %d was released the primary cannot commit (%s): %s at %s (%v)", lockID, desc, tr.Outcome, tr.FailedAt, tr.Errno) {
+		cs.ref = tr.After
+	}
+	r.Count("c13.contended-acquire.checked")
 }
 
 // repeatAcquire: the same /halt request again (a retried call).
